@@ -31,6 +31,7 @@ SPEC = {
         # the zck_write harnesses below are written but NOT registered in any tier: no end of symbolic execution within 900 s (6 bytes, window 3)
         W("h16w", "h16w", 6, 3, 2, 4, 9, "segmentation independence, min/max, in-order delivery of the automatic chunker", tiers=("dev",)),
         W("h16p", "h16p", 6, 3, 2, 4, 9, "prefix locality of the automatic chunker", tiers=("dev",)),
+        W("h16w-4", "h16w", 4, 3, 2, 3, 9, "segmentation independence with 4 bytes (probe: no verdict in 270 s)", tiers=("dev",), timeout=270),
         W("h16w-7", "h16w", 7, 3, 2, 4, 9, "segmentation independence with 7 bytes", tiers=("dev",), timeout=3000),
         W("h16p-8", "h16p", 8, 3, 2, 4, 9, "prefix locality with 8 bytes", tiers=("dev",), timeout=3000),
     ],
